@@ -7,6 +7,9 @@ CONSTANTS
   ModeOf <- MCModeOf
   RulesKey = "item"
   IdsIdentifyContent = TRUE
+  IncOf <- MCIncOf
+  KeepHigherIncarnation = FALSE
+  StateEarly = FALSE
   InitScenarios = {"fresh", "haskey", "unreadable", "rotated"}
   InitDocs <- DocsV1
   MaxReconf = 1
